@@ -113,13 +113,20 @@ func VerifZlRead() {
 func VerifZlReset() {
 	n := verifrt.Param("N")
 	M := verifrt.Param("M")
-	useDict := verifrt.Pick("dict", 2) == 1
+	dsel := verifrt.Pick("dict", 3)
+	useDict := dsel >= 1
 	var dict []byte
-	if useDict {
+	if dsel == 1 {
 		dict = vzDict
+	} else if dsel == 2 {
+		// longer than the 32 KiB window
+		dict = make([]byte, 40000)
+		for i := range dict {
+			dict[i] = byte('A' + i%61 + i/4096)
+		}
 	}
 	s := verifrt.Bytes(n)
-	ref := refInflate(s, refOpts{strict: true, maxOut: M, symStart: 0, dict: dict})
+	ref := refInflate(s, refOpts{strict: true, maxOut: M, symStart: 0, dict: dict, distCap: 6})
 	verifrt.Assume(ref.status == refComplete)
 	if useDict && ref.maxDist > len(ref.out)-0 {
 		verifrt.Cover("uses-dictionary")
@@ -298,4 +305,66 @@ func VerifZlFail() {
 	verifrt.Assert(vhPrefix(out, []byte("abc")), "C15:zlib-prefix")
 	k2, e2 := z.Read(make([]byte, 4))
 	verifrt.Assert(k2 == 0 && e2 == fault, "C15:zlib-sticky")
+}
+
+type vzFailSink struct {
+	b       []byte
+	calls   int
+	failAt  int
+	err     error
+	failed  bool
+	recover bool
+}
+
+func (s *vzFailSink) Write(p []byte) (int, error) {
+	s.calls++
+	if s.failAt != 0 && s.calls >= s.failAt && !s.failed {
+		s.failed = true
+		return 0, s.err
+	}
+	if s.failed && !s.recover {
+		return 0, s.err
+	}
+	s.b = append(s.b, p...)
+	return len(p), nil
+}
+
+// VerifZlWrFail (C14, zlib): destination fails at its k-th call (header, dictionary id, body or trailer writes).
+func VerifZlWrFail() {
+	levels := [3]int{0, 1, 2}
+	level := levels[verifrt.Pick("level", 3)]
+	var dict []byte
+	if verifrt.Pick("dict", 2) == 1 {
+		dict = vzDict
+	}
+	K := verifrt.Param("K")
+	fault := verifrt.ErrValue("dst")
+	k := int(verifrt.U8())
+	verifrt.Assume(k >= 1 && k <= verifrt.Param("KMAX"))
+	sink := &vzFailSink{failAt: verifrt.Concretize(k), err: fault, recover: verifrt.Pick("recover", 2) == 1}
+	w, _ := NewWriterLevelDict(sink, level, dict)
+	for i := 0; i < K; i++ {
+		op := int(verifrt.U8())
+		verifrt.Assume(op < 3)
+		op = verifrt.Concretize(op)
+		was := sink.failed
+		before := sink.calls
+		var err error
+		switch op {
+		case 0:
+			_, err = w.Write([]byte("hello"))
+		case 1:
+			err = w.Flush()
+		case 2:
+			err = w.Close()
+		}
+		if was {
+			verifrt.Cover("op-after-failure")
+			verifrt.Assert(err != nil, "C14:zlib-not-sticky")
+			verifrt.Assert(sink.calls == before, "C14:zlib-destination-touched-after-failure")
+		} else if sink.failed {
+			verifrt.Cover("failure-reported")
+			verifrt.Assert(err == fault, "C14:zlib-failure-not-reported")
+		}
+	}
 }
